@@ -57,7 +57,13 @@ func exec(plan []any) {
 		step := plan[i].([]any)
 		op := step[0].(int)
 		if op == 0 {
-			storage.Put(storage.GetContext(), step[1].([]byte), step[2].([]byte))
+			// the value is a Buffer of this frame; changing it after the put
+			// must not reach the storage (the put took a copy)
+			v := step[2].([]byte)
+			storage.Put(storage.GetContext(), step[1].([]byte), v)
+			if len(v) > 0 {
+				v[0] = v[0] ^ 0x5a
+			}
 		} else if op == 1 {
 			storage.Delete(storage.GetContext(), step[1].([]byte))
 		} else if op == 2 {
